@@ -10,11 +10,11 @@ from t2.family import Program
 
 def run(tier, seed):
     rep = Report("C16", tier, seed, "proof", "./vf check C16 --tier " + tier)
-    specs = [("contracts.pointer", "make_ptr", (w, pn, e)) for w in ("read-write", "dereference", "arithmetic", "null") for pn in ("uint8", "uint16", "uint32", "uint64") for e in "<>"]
+    specs = [("contracts.pointer", "make_ptr", (w, pn, e)) for w in ("read-write", "dereference", "arithmetic", "null") for pn in ("uint8", "uint16", "uint24", "uint32", "uint48", "uint64") for e in "<>"]
     specs += [("contracts.cstructfns", "make_fn", ("make_pointer",)), ("contracts.tables", "make_table", ("endianness",))]
     rep.add_case_results(run_cases(specs), "T1")
     progs = []
-    for pn in ("uint8", "uint16", "uint32", "uint64"):
+    for pn in ("uint8", "uint16", "uint24", "uint32", "uint48", "uint64"):
         for kinds in (["ptr"], ["ptrs"], ["a_ptr_2"], ["ptr", "u8"], ["u8", "ptr", "u16"], ["ptrs", "i24"]):
             for e in "<>":
                 for a in (False, True):
